@@ -1,6 +1,7 @@
 import Driver.Common
 import Driver.Views
 import Parsley.Model.Rtps
+import Parsley.Model.RtpsFast
 import Parsley.Spec.Rtps
 /-
   C20 line protocol.
@@ -9,6 +10,13 @@ import Parsley.Spec.Rtps
     raw <hex>                                   an arbitrary datagram
     enc <hex> <packet>                          a datagram produced by the spec encoder from <packet>
   <packet> ::= <version> <vendor> <prefix-hex> <n> { <id> <flags> <length> <payload-hex> }^n     (decimal / hex, "-" = empty)
+
+  <hex> may be written in DESCRIPTOR form: segments joined by `+`, each `<hex>` or `<n>*<hex>` (n copies of <hex>), e.g.
+    raw 52545053…+65537*15010100aa+0702000000     (a datagram of 65538 sub-messages in one short line)
+  `bytesOfDesc` here and `expand` in harness/src/bin/c20.rs turn it into the same bytes; a word without `+`/`*` is plain
+  hex.  The model of a datagram above 4 kB is evaluated by `Rtps.packetFast` (one walk over the unread input; the
+  line-by-line model re-measures the whole buffer at every step, minutes for 65537 sub-messages), which is the model:
+  `Parsley.C20.packetFast_eq : packetFast s = packetP s 0` (Props/C20Fast.lean).
 
   output lines (implementation and model)
     ok <cursor> <packet> | err | panic <text>
@@ -53,10 +61,28 @@ def readPacket : List String → Option Packet
     | _, _, _, _ => none
   | _ => none
 
+/-- one segment of a descriptor: `<hex>` or `<n>*<hex>` -/
+def bytesOfSeg (seg : String) : Option Bytes :=
+  match seg.splitOn "*" with
+  | [h] => bytesOfHex h
+  | [n, h] =>
+    match n.toNat?, bytesOfHex h with
+    | some n, some u => some (List.replicate n u).flatten
+    | _, _ => none
+  | _ => none
+
+/-- the datagram word of a case: plain hex, or segments joined by `+` -/
+def bytesOfDesc (w : String) : Option Bytes :=
+  if !(w.contains '+' || w.contains '*') then bytesOfHex w else
+  (w.splitOn "+").foldr (fun seg acc =>
+    match bytesOfSeg seg, acc with
+    | some b, some a => some (b ++ a)
+    | _, _ => none) (some [])
+
 def datagramOf (line : String) : Option Bytes :=
   match words line with
-  | "raw" :: hex :: _ => bytesOfHex hex
-  | "enc" :: hex :: _ => bytesOfHex hex
+  | "raw" :: hex :: _ => bytesOfDesc hex
+  | "enc" :: hex :: _ => bytesOfDesc hex
   | _ => none
 
 /-- the model: `PacketP::parse` on a fresh buffer -/
@@ -64,14 +90,15 @@ def modelPlain (line : String) : String :=
   match datagramOf line with
   | none => "bad-case"
   | some bs =>
-    match packetP bs 0 with
+    -- above 4 kB: the linear-time evaluation, proved equal (`Parsley.C20.packetFast_eq`)
+    match (if bs.length ≤ 4096 then packetP bs 0 else packetFast bs) with
     | (.ok p, c) => s!"ok {c} {showPacket p.val}"
     | (.err _, _) => "err"
     | (.panic st, _) => s!"panic {st}"
 
 /-- the window of a case: its second word -/
 def winOf : List String → Option Bytes
-  | _ :: hex :: _ => bytesOfHex hex
+  | _ :: hex :: _ => bytesOfDesc hex
   | _ => none
 
 def model (line : String) : String := Views.model winOf modelPlain line
@@ -80,7 +107,7 @@ def model (line : String) : String := Views.model winOf modelPlain line
 def judgePlain (case impl : String) : String :=
   match words case with
   | kind :: hex :: pk =>
-    match bytesOfHex hex with
+    match bytesOfDesc hex with
     | none => "bad badcase hex"
     | some bs =>
       -- an `enc` case must be what it claims: the spec encoding of a well-formed packet
@@ -454,6 +481,213 @@ def genBoundary (seed n : Nat) (tier : String) (emit : String → IO Unit) : IO 
     r := r7
     emit s!"raw {hexOfBytes (RtpsSpec.encode q1 ++ RtpsSpec.encode q2 ++ (if three == 0 then RtpsSpec.encode q3 else []))}"
 
+/-! ### the count / size family
+
+  The format bounds neither the number of sub-messages of a datagram nor its size (only the length field of a
+  sub-message that is not the last one has 16 bits): a datagram is read to its end.  A reader with a cap on the
+  number of sub-messages, a counter or size that wraps at 2^8 / 2^16, a length compared in the wrong width, returns
+  a packet whose encoding is a strict prefix of the datagram (`bad unread`), or rejects / panics on the encoding of a
+  well-formed packet.  Datagrams are built from RUNS (a cycle of sub-messages repeated) and written in the
+  descriptor form above 4 kB, so that 65537 sub-messages are one short case line. -/
+
+/-- `unit` repeated `count` times -/
+structure Seg where
+  count : Nat
+  unit : Bytes
+
+def segsLen (l : List Seg) : Nat := (l.map fun s => s.count * s.unit.length).sum
+def segsBytes (l : List Seg) : Bytes := l.foldr (fun s acc => (List.replicate s.count s.unit).flatten ++ acc) []
+def segsDesc (l : List Seg) : String :=
+  let parts := l.filterMap fun s =>
+    if s.count == 0 || s.unit.isEmpty then none
+    else if s.count == 1 then some (hexOfBytes s.unit) else some s!"{s.count}*{hexOfBytes s.unit}"
+  if parts.isEmpty then "-" else "+".intercalate parts
+
+/-- a run of sub-messages: `cycle` repeated `count` times -/
+structure Run where
+  count : Nat
+  cycle : List SubMsg
+
+def runsMsgs (rs : List Run) : List SubMsg := rs.flatMap fun r => (List.replicate r.count r.cycle).flatten
+def runsSegs (h : Header) (rs : List Run) : List Seg :=
+  ⟨1, RtpsSpec.encodeHdr h⟩ :: rs.map fun r => ⟨r.count, r.cycle.flatMap RtpsSpec.encodeSub⟩
+
+/-- `raw` line of a byte string given in segments: plain hex up to 4 kB, the descriptor above -/
+def rawSegs (l : List Seg) : String :=
+  if segsLen l ≤ 4096 then s!"raw {hexOfBytes (segsBytes l)}" else s!"raw {segsDesc l}"
+
+/-- line of a packet given in runs: up to 4 kB `enc` with the packet written out (the implementation must return
+    exactly it), above that `raw` with the descriptor (see `encOrRaw` on the strength of the `raw` oracle) -/
+def runsLine (h : Header) (rs : List Run) : String :=
+  let segs := runsSegs h rs
+  if segsLen segs ≤ 4096 then encOrRaw ⟨h, runsMsgs rs⟩ else s!"raw {segsDesc segs}"
+
+/-- the same packet as an `enc` case whose datagram is written as descriptor (small packets: cross-checks the two
+    expansions of the descriptor against the spec encoding of the packet written out) -/
+def encDescLine (h : Header) (rs : List Run) : String :=
+  s!"enc {segsDesc (runsSegs h rs)} {showPacket ⟨h, runsMsgs rs⟩}"
+
+/-- minimal sub-messages (a non-final sub-message needs a non-zero length: 5 bytes), little- and big-endian -/
+def cyMinLE : List SubMsg := [mkSub 0x15 1 1 [0xaa]]
+def cyMinBE : List SubMsg := [mkSub 0x09 0 1 [0xbb]]
+/-- 4-byte bodies, the two byte orders alternating -/
+def cyFour : List SubMsg := [mkSub 0x15 1 4 (seqBytes 4), mkSub 0x09 2 4 [0xde, 0xad, 0xbe, 0xef]]
+/-- seven kinds (period coprime to every power of two): known / unknown / vendor-specific ids, both byte orders,
+    other flag bits set, body sizes 1-4, the magic and ff ff as bodies -/
+def cyMixed : List SubMsg :=
+  [ mkSub 0x15 1 1 [0xa1], mkSub 0x09 0 4 (seqBytes 4), mkSub 0x07 3 2 [0xb1, 0xb2], mkSub 0x0e 2 3 [0xc1, 0xc2, 0xc3],
+    mkSub 0x06 0x81 4 [0x52, 0x54, 0x50, 0x53], mkSub 0x01 0 1 [0x00], mkSub 0x80 0xff 2 [0xff, 0xff] ]
+
+def countCycles : List (List SubMsg) := [cyMinLE, cyMinBE, cyFour, cyMixed]
+
+/-- `n` sub-messages: the cycle `cy` repeated and cut to length; `last` = 0: the n-th is the next of the cycle (explicit
+    length), 1: a zero-length sub-message with empty payload, 2: a zero-length sub-message with a 6-byte payload -/
+def countRuns (cy : List SubMsg) (n last : Nat) : List Run :=
+  if n == 0 then [] else
+  let k := max cy.length 1
+  let body := if last == 0 then n else n - 1
+  let tail : List SubMsg := match last with
+    | 0 => []
+    | 1 => [mkSub 0x07 2 0 []]
+    | _ => [mkSub 0x15 1 0 (seqBytes 6)]
+  [⟨body / k, cy⟩, ⟨1, cy.take (body % k)⟩, ⟨1, tail⟩]
+
+/-- the datagram of `n` explicit-length sub-messages with its last byte missing -/
+def countShort (cy : List SubMsg) (n : Nat) : List Seg :=
+  let k := max cy.length 1
+  let lastSub := cy.drop ((n - 1) % k) |>.take 1
+  runsSegs hdr0 (countRuns cy (n - 1) 0) ++ [⟨1, (lastSub.flatMap RtpsSpec.encodeSub).dropLast⟩]
+
+/-- `m` explicit sub-messages, a zero length field, and `m'` more well-formed-looking sub-messages behind it: by the
+    format these are the PAYLOAD of sub-message m+1 (the packet has m+1 sub-messages, not m+1+m') -/
+def countZeroMid (cy : List SubMsg) (m m' : Nat) : List Seg :=
+  runsSegs hdr0 (countRuns cy m 0) ++ [⟨1, [0x07, 0x03, 0x00, 0x00]⟩] ++ (runsSegs hdr0 (countRuns cy m' 0)).drop 1
+
+def pat256 : Bytes := (List.range 256).map fun j => UInt8.ofNat (j * 7 + 1)
+
+/-- a sub-message header with length field `len` followed by `L` patterned payload bytes, in segments -/
+def subSegs (id fl len L : Nat) : List Seg :=
+  [⟨1, (RtpsSpec.encodeSub (mkSub id fl len [])).take 4⟩, ⟨L / 256, pat256⟩, ⟨1, pat256.take (L % 256)⟩]
+
+def hdrSeg : Seg := ⟨1, RtpsSpec.encodeHdr hdr0⟩
+def smallSeg : Seg := ⟨1, RtpsSpec.encodeSub (mkSub 0x09 1 8 (seqBytes 8))⟩
+
+def countsSmall : List Nat := List.range 41
+def countsEdge : List Nat := [63, 64, 65, 66, 127, 128, 129, 255, 256, 257, 1000, 1024, 1025]
+def countsEdgeThorough : List Nat :=
+  ((List.range 11).flatMap fun k => [2 ^ (k + 5) - 1, 2 ^ (k + 5), 2 ^ (k + 5) + 1]) ++
+  [41, 50, 62, 67, 100, 200, 254, 258, 300, 500, 999, 1001, 1023, 1026, 1500, 4095, 4096, 4097, 10000, 20000, 50000]
+def countsHuge : List Nat := [65535, 65536, 65537]
+def countsHugeThorough : List Nat := [65534, 65535, 65536, 65537, 65538, 100000, 131071, 131072, 131073]
+
+def genCount (seed n : Nat) (tier : String) (emit : String → IO Unit) : IO Unit := do
+  let thorough := tier == "thorough"
+  -- (1) COUNT sweep: every count 0..40 and the edge counts x 4 cycles x 3 kinds of last sub-message
+  let edge := if thorough then (countsEdge ++ countsEdgeThorough).eraseDups else countsEdge ++ [4096]
+  for c in countsSmall ++ edge do
+    if c == 0 then emit (runsLine hdr0 [])
+    else
+      for cy in countCycles do
+        for last in [0, 1, 2] do
+          -- (quick, from 63 up: every cycle with an explicit last one, the minimal little-endian cycle with every last
+          -- kind, the mixed cycle with an empty zero-length one)
+          if thorough ∨ c ≤ 40 ∨ last == 0 ∨ cy.length == 1 && cy != cyMinBE ∨ cy.length == 7 && last == 1 then
+            emit (runsLine hdr0 (countRuns cy c last))
+  -- the same datagrams damaged: last byte missing, a stray byte behind the last sub-message (behind a zero-length one
+  -- it is payload), a zero length field in the middle of the run (the rest is its payload)
+  for c in [1, 2, 3, 8, 33] ++ edge do
+    for cy in (if thorough then countCycles else if c ≥ 1000 then [cyMinLE] else [cyMinLE, cyMixed]) do
+      -- (the two that must be REJECTED only up to 4097 sub-messages: the oracle's reference decoder, which decides
+      -- whether a rejection is right, measures the rest of the datagram at every sub-message)
+      if c ≤ 4097 then
+        emit (rawSegs (countShort cy c))
+        emit (rawSegs (runsSegs hdr0 (countRuns cy c 0) ++ [⟨1, [0x77]⟩]))
+      emit (rawSegs (runsSegs hdr0 (countRuns cy c 1) ++ [⟨1, [0x77]⟩]))
+      emit (rawSegs (countZeroMid cy (c / 2) (c - c / 2)))
+      emit (rawSegs (countZeroMid cy (c - 1) 1))
+  -- descriptor-form twins of small packets with the expected packet written out
+  for c in [0, 1, 2, 3, 7, 64, 65] do
+    for cy in [cyMinLE, cyMixed] do
+      emit (encDescLine hdr0 (countRuns cy c (c % 3)))
+  -- the huge counts (beyond a 16-bit counter; 65537 x 5 bytes = 320 kB)
+  for c in (if thorough then countsHugeThorough else countsHuge) do
+    emit (runsLine hdr0 (countRuns cyMinLE c 0))
+    if thorough ∨ c == 65536 then emit (runsLine hdr0 (countRuns cyMinLE c 1))
+    if thorough ∨ c == 65537 then emit (runsLine hdr0 (countRuns cyMixed c 0))
+    if thorough then emit (runsLine hdr0 (countRuns cyFour c 2))
+    if thorough then
+      emit (runsLine hdr0 (countRuns cyMinBE c 2))
+      emit (runsLine hdr0 (countRuns cyMixed c 1))
+  -- (2) COUNT x SIZE: many sub-messages with large bodies
+  let big1000 : List SubMsg := [mkSub 0x15 1 1000 (pat256 ++ pat256 ++ pat256 ++ pat256.take 232)]
+  let big255 : List SubMsg := [mkSub 0x09 0 255 (pat256.take 255), mkSub 0x15 1 256 pat256, mkSub 0x07 3 257 (pat256 ++ [0x01])]
+  for c in (if thorough then [63, 64, 65, 66, 127, 128, 129, 255, 256, 257, 1024, 1025] else [64, 65, 66]) do
+    emit (runsLine hdr0 (countRuns big1000 c 0))
+    if thorough ∨ c == 65 then emit (runsLine hdr0 (countRuns big1000 c 2))
+  for c in (if thorough then [63, 64, 65, 66, 255, 256, 257, 258, 1023, 1024, 1025] else [65, 256, 257]) do
+    emit (runsLine hdr0 (countRuns big255 c 0))
+    if thorough ∨ c == 65 then emit (runsLine hdr0 (countRuns big255 c 1))
+  -- (3) LONG bodies: length fields at the top of the 16-bit range, both byte orders, alone / followed / preceded /
+  -- one byte short / one byte long / twice in a row
+  let lens := if thorough then [0xfff0, 0xfff7, 0xfff8, 0xfff9, 0xfffa, 0xfffb, 0xfffc, 0xfffd, 0xfffe, 0xffff,
+                                 0x7fff, 0x8000, 0x8001, 0xff00, 0xfeff, 0xff01, 0xfffc - 4]
+              else [0xfffc, 0xfffd, 0xfffe, 0xffff]
+  for len in lens do
+    for fl in [1, 0] do
+      emit (rawSegs (hdrSeg :: subSegs 0x15 fl len len))
+      if thorough ∨ len == 0xffff then
+        emit (rawSegs (hdrSeg :: subSegs 0x15 fl len len ++ [smallSeg]))
+        emit (rawSegs (hdrSeg :: subSegs 0x15 fl len len ++ subSegs 0x16 (1 - fl) len len))
+        if thorough ∨ fl == 1 then
+          emit (rawSegs (hdrSeg :: smallSeg :: subSegs 0x15 fl len len))
+          emit (rawSegs (hdrSeg :: subSegs 0x15 fl len (len - 1)))
+          emit (rawSegs (hdrSeg :: subSegs 0x15 fl len (len + 1)))
+          -- followed by a zero-length sub-message whose payload does not fit a 16-bit length
+          emit (rawSegs (hdrSeg :: subSegs 0x15 fl len len ++ subSegs 0x16 fl 0 70001))
+  -- a zero-length sub-message alone, payload sizes across 2^16 (and 2^17)
+  for L in [65532, 65535, 65536, 65537] ++ (if thorough then [65531, 65534, 65538, 131071, 131072, 131073, 1048577] else []) do
+    emit (rawSegs (hdrSeg :: subSegs 0x15 1 0 L))
+    if thorough ∨ L == 65536 then emit (rawSegs (hdrSeg :: smallSeg :: subSegs 0x09 0 0 L))
+  -- (4) DATAGRAM SIZES across 2^16 (the UDP maximum 65507 included): D bytes made of minimal sub-messages and one
+  -- that fills up, explicit or zero-length; a sub-message header starting at offset 65533 … 65537
+  for D in [65535, 65536, 65537] ++ (if thorough then [65506, 65507, 65508, 65534, 65538, 131071, 131072, 131073] else []) do
+    for cy in (if thorough then countCycles else if D == 65536 then [cyMinLE, cyMixed] else [cyMinLE]) do
+      let unitLen := (cy.flatMap RtpsSpec.encodeSub).length
+      let m := (D - 20 - 4 - 1) / unitLen - 1      -- whole cycles
+      let fill := D - 20 - m * unitLen - 4          -- payload of the filling sub-message (≥ 1)
+      emit (rawSegs (runsSegs hdr0 [⟨m, cy⟩] ++ subSegs 0x15 1 fill fill))
+      emit (rawSegs (runsSegs hdr0 [⟨m, cy⟩] ++ subSegs 0x09 0 0 fill))
+      if thorough ∨ D == 65536 then emit (rawSegs (runsSegs hdr0 [⟨m, cy⟩] ++ subSegs 0x15 0 fill fill ++ [smallSeg]))
+  for X in [65533, 65534, 65535, 65536, 65537] do
+    for fl in (if thorough then [1, 0] else [X % 2]) do
+      emit (rawSegs (hdrSeg :: subSegs 0x15 fl (X - 24) (X - 24) ++ (runsSegs hdr0 [⟨1, cyMixed.take 3⟩]).drop 1))
+  -- (5) random: count from a distribution with mass at the edges, a random cycle of 1-4 small sub-messages, random last
+  let mut r := Rng.mk' (seed + 0xC20C9)
+  for _ in List.range (n / 16) do
+    let (w, r1) := r.nat 6
+    let (c, r2) := match w with
+      | 0 => r1.nat 130
+      | 1 => let (k, r) := r1.nat 10; (60 + k, r)
+      | 2 => let (k, r) := r1.nat 16; (120 + k, r)
+      | 3 => let (k, r) := r1.nat 12; (250 + k, r)
+      | 4 => r1.nat 1100
+      | _ => r1.pick [64, 65, 66, 128, 129, 256, 257, 512, 1024, 1025, 2048]
+    let (k, r3) := r2.nat 4
+    let mut rr := r3
+    let mut cy : List SubMsg := []
+    for _ in List.range (k + 1) do
+      let (id, ra) := rr.nat 256
+      let (fl, rb) := ra.nat 256
+      let (len, rc) := rb.nat 8
+      let (pl, rd) := randBytes (len + 1) rc
+      cy := mkSub id fl (len + 1) pl :: cy
+      rr := rd
+    let (last, r4) := rr.nat 3
+    let (ver, r5) := r4.nat 65536
+    let (pre, r6) := randBytes 12 r5
+    r := r6
+    emit (runsLine ⟨UInt16.ofNat ver, 0x0f01, pre⟩ (countRuns cy c last))
+
 /-! ### every case once more on a restricted view (Driver/Views.lean)
 
   Each case line is followed by its view twin: the datagram as a window of a capture buffer.  Axes, cycled by the
@@ -483,7 +717,7 @@ def sufPool : List Bytes :=
 def viewTwin (c : Nat) (line : String) (cont : Option Bytes) : Option String :=
   match words line with
   | _ :: hex :: _ =>
-    match bytesOfHex hex with
+    match bytesOfDesc hex with
     | none => none
     | some buf =>
       -- (tier budget: of the datagrams above 4 kB every fourth gets its twin)
@@ -530,6 +764,8 @@ def gen (seed n : Nat) (tier : String) (emit0 : String → IO Unit) : IO Unit :=
   genFixedField seed n tier emit
   -- (6) content-dependent boundaries, concatenations ----------------------------
   genBoundary seed n tier emit
+  -- (7) counts and sizes: many sub-messages, long bodies, datagram sizes across 2^16 ---
+  genCount seed n tier emit
   -- (4) exhaustive small spaces ------------------------------------------------
   -- every flags byte x {short, 258-byte (asymmetric length bytes), zero-length} x {last, followed}
   for fl in List.range 256 do
